@@ -12,6 +12,7 @@ import DW.Driver.C19
 import DW.Driver.Alias
 import DW.Driver.C04
 import DW.Driver.GenDump
+import DW.Driver.GenLoad
 
 open Lean DW.Driver
 
@@ -33,6 +34,7 @@ def dispatch (j : Json) : Except String Json := do
   | "c04" => handleC04 j
   | "gendump" => handleGenDump j
   | "gendumprun" => handleGenDumpRun j
+  | "genload" => handleGenLoad j
   | x => throw s!"unknown op {x}"
 
 def handleLine (line : String) : String :=
